@@ -7,9 +7,9 @@ copy_struct_reg / copy_struct_mem / copy_ret_buffer, include/stdarg.h); specific
 3.5.7); known-finding regions: Spec/CallRegions.lean.  Every theorem is for **all** signatures: any number and order of
 parameters, any member trees.
 
-`sizesOk s` (decidable) is the well-formedness of the types of `s`: an aggregate of at most 16 bytes is not empty and
-an eightbyte moved with movss/movsd has 4 or 8 bytes (fails only for the GNU empty struct and for packed structs: known
-finding C06-packed-unaligned-param, where cc1 aborts), integer-class scalars have 1..8 bytes, no array is passed by value.
+`sizesOk s` (decidable) is the well-formedness of the types of `s`: in an aggregate of 1..16 bytes an eightbyte moved with
+movss/movsd has 4 or 8 bytes (fails only for packed structs: known finding C06-packed-unaligned-param, where cc1 aborts; the GNU
+empty struct is fine since /repo b298aee: it takes nothing), integer-class scalars have 1..8 bytes, no array is passed by value.
 `supported s` (decidable) = outside the regions of the five known findings of known_findings.json.
 -/
 import ChibiVerif.Model.CallConv
@@ -18,6 +18,9 @@ import ChibiVerif.Spec.CallRegions
 import ChibiVerif.Lemmas.CallConvLemmas
 import ChibiVerif.Lemmas.PsABILemmas
 import ChibiVerif.Lemmas.VaLemmas
+import ChibiVerif.Lemmas.C06ArgSpecLemmas
+import ChibiVerif.Lemmas.C06ArgLemmas
+import ChibiVerif.Props.C01
 
 namespace ChibiVerif.Props.C06
 open ChibiVerif.CallConv
@@ -28,7 +31,7 @@ open ChibiVerif.Gen.Templates (templates GP_MAX FP_MAX)
 /-! ## chibicc ↔ chibicc -/
 
 /-- full statement: for every signature, neither side reaches an abort site of cc1 and the callee reads every named
-    parameter from where the caller put the argument.  False as stated: see Findings/C06.lean (packed / empty structs). -/
+    parameter from where the caller put the argument.  False as stated: see Findings/C06.lean (packed structs). -/
 def C06_self_Statement : Prop :=
   ∀ s : Sig, ∃ a, callerAssign s = .ok a ∧ calleeAssign s = .ok (a.take s.nNamed)
 
@@ -36,7 +39,7 @@ def C06_self_Statement : Prop :=
     (classification in `push_args`, the two pushing passes, the pop phase of `ND_FUNCALL`) and the two loops of the callee
     (`assign_lvar_offsets`, the register stores of the prologue) put and expect every argument in the same register
     pieces or at the same stack offset, and no abort site (`assert(depth == 0)`, `unreachable()`, `argreg64[6]`) is reached.
-    Missing for the full statement: packed structs with unaligned members and the GNU empty struct (known finding). -/
+    Missing for the full statement: packed structs with unaligned members (known finding C06-packed-unaligned-param). -/
 theorem C06_self_partial (s : Sig) (h : sizesOk s = true) :
     ∃ a, callerAssign s = .ok a ∧ calleeAssign s = .ok (a.take s.nNamed) := by
   simp only [sizesOk, Bool.and_eq_true] at h
@@ -45,7 +48,7 @@ theorem C06_self_partial (s : Sig) (h : sizesOk s = true) :
 
 example : sizesOk { ret := some (.agg false 24 8 (.cons 0 (.int 8 false false) (.cons 8 (.int 8 false false) (.cons 16 .dbl .nil)))),
                     params := [.int 4 false false, .agg false 16 8 (.cons 0 (.int 8 false false) (.cons 8 .dbl .nil)), .ldbl,
-                               .dbl, .flt, .agg false 12 4 (.cons 0 (.arr .flt 3) .nil)],
+                               .dbl, .flt, .agg false 12 4 (.cons 0 (.arr .flt 3) .nil), .agg false 0 1 .nil],
                     nNamed := 4, variadic := true } = true := by decide
 
 /-! ## chibicc ↔ any ABI-conforming compiler -/
@@ -101,8 +104,8 @@ example :
                      params := [.int 4 false false, .int 8 false false, .int 8 false false, .int 8 false false,
                                 .agg false 16 8 (.cons 0 (.int 8 false false) (.cons 8 .dbl .nil)),
                                 .agg false 16 8 (.cons 0 (.int 8 false false) (.cons 8 (.int 8 false false) .nil)),
-                                .dbl, .flt, .agg false 12 4 (.cons 0 (.arr .flt 3) .nil), .int 1 true true],
-                     nNamed := 10, variadic := false }
+                                .dbl, .flt, .agg false 12 4 (.cons 0 (.arr .flt 3) .nil), .int 1 true true, .agg true 0 1 .nil],
+                     nNamed := 11, variadic := false }
     sizesOk s = true ∧ supported s = true := by decide
 
 /-! ## variadic functions -/
@@ -214,13 +217,15 @@ def mentionsForbidden (t : String × List String) : Bool :=
   t.2.any (fun o => forbiddenSpellings.any (fun b => hasSub o.toList b))
 
 /-- the mnemonics of the back end; none has rbx, rbp or r12-r15 as an implicit operand (Intel SDM vol. 2: div/idiv/cqo/cdq
-    use rax, rdx; shifts cl; cmpxchg rax; rep stosb rdi, rcx, al; push/pop/call/ret rsp; x87 and SSE instructions none).
+    use rax, rdx; shifts cl; cmpxchg rax; rep stosb rdi, rcx, al; push/pop/call/ret rsp; btc its two operands and CF; x87
+    (fcomi, fsub, fxch ...) and SSE (comisd, comiss, cvtsi2ss ...) instructions and the conditional jumps none).
     A mnemonic outside this list (cpuid, cmpxchg16b, xlat, enter, leave, pusha ...) makes the theorem fail. -/
 def knownMnemonics : List String :=
-  ["add","addq","addsd","addss","and","call","cdq","cmp","cqo","cvtsd2ss","cvtsi2sd","cvtsi2sdl","cvtsi2sdq","cvtsi2ssl",
-   "cvtsi2ssq","cvtss2sd","cvttsd2sil","cvttsd2siq","cvttss2sil","cvttss2siq","data16 lea","dec","div","divsd","divss",
-   "faddp","fadds","fchs","fcomip","fdivrp","fildl","fildll","fildq","fistpl","fistpq","fistps","fldcw","fldl","flds","fldt",
-   "fldz","fmulp","fnstcw","fstp","fstpl","fstps","fstpt","fsubrp","fucomip","idiv","imul","inc","jbe","je","jmp","jne","jns",
+  ["add","addq","addsd","addss","and","btc","call","cdq","cmp","comisd","comiss","cqo","cvtsd2ss","cvtsi2sd","cvtsi2sdl",
+   "cvtsi2sdq","cvtsi2ss","cvtsi2ssl","cvtsi2ssq","cvtss2sd","cvttsd2sil","cvttsd2siq","cvttss2sil","cvttss2siq","data16 lea",
+   "dec","div","divsd","divss","faddp","fadds","fchs","fcomi","fcomip","fdivrp","fildl","fildll","fildq","fistpl","fistpq",
+   "fistps","fldcw","fldl","flds","fldt","fldz","fmulp","fnstcw","fstp","fstpl","fstps","fstpt","fsub","fsubrp","fucomip",
+   "fxch","idiv","imul","inc","jae","jbe","je","jmp","jne","jns",
    "js","lea","lock cmpxchg","mov","movd","movl","movq","movsbl","movsd","movss","movswl","movsxd","movzb","movzbl","movzwl",
    "movzx","mulsd","mulss","neg","not","or","pop","push","pxor","rep stosb","ret","rex64","sar","seta","setae","setb","setbe",
    "sete","setl","setle","setne","setnp","setp","shl","shr","sub","subsd","subss","test","ucomisd","ucomiss","xchg","xor",
@@ -266,5 +271,183 @@ theorem C06_epilogue_restores (entry callerRbp : Int) (stackSize : Nat) (bodyRsp
     epilogue { prologue entry callerRbp stackSize with rsp := bodyRsp } entry = some (entry + 8, callerRbp) := by
   simp only [epilogue, prologue]
   simp
+
+/-! ## argument conversions (parse.c `funcall`, C11 6.5.2.2)
+
+`Gen.Funcall.argStep` is the body of the argument loop of `funcall()` as **translated from parse.c on every run**;
+`C06Args.funcall` the loop around it; `argSeq` the instructions the inserted `ND_CAST`s print (cast table regenerated from
+codegen.c).  `Represents` is the register invariant of C01, `C01_cast` / `C02_select_partial` the conversion theorems that are
+reused here; `X86.run` / `Fp.run` the instruction semantics of C01 / C02. -/
+
+section Args
+open ChibiVerif.C06Args ChibiVerif.Spec.CallArgs ChibiVerif.Spec.IntSpec ChibiVerif.Gen.CommonType
+open ChibiVerif.C01 (Represents MemHolds castSeq descr)
+
+/-- **C06 (which conversion each argument gets).**  For every parameter list and every argument list (any lengths; arithmetic
+    types, pointers, enumerations, structs/unions) and both kinds of callee type, `funcall()` does what C11 6.5.2.2 prescribes:
+    the diagnostic "too few arguments" / "too many arguments" exactly when the counts disagree (more arguments than
+    parameters is accepted only for `...` and for callees declared `()`), otherwise every argument with a corresponding
+    parameter is converted to the parameter's type (`new_cast(arg, param_ty)`; a struct/union is handed over as it is), and
+    every trailing argument undergoes the default argument promotions: `float → double` by a cast, and integer types narrower
+    than `int` by *no* cast — which is the promotion, because of the register invariant (`C06_arg_default_promotions`). -/
+theorem C06_funcall_spec (ps as : List STy) (variadic : Bool) :
+    agrees (passedTypes ps variadic as) (funcall ⟨ps.map descrS, variadic⟩ (as.map descrS)) as :=
+  funcall_agrees ps as variadic
+
+example : passedTypes [.arith (.int .bool), .agg false 12] true [.arith (.int .i8), .agg false 12, .arith .f32, .arith (.int .u16), .ptr]
+      = .ok [.arith (.int .bool), .agg false 12, .arith .f64, .arith (.int .i32), .ptr] ∧
+    funcall ⟨[ty_bool, ⟨.TY_STRUCT, 12, false, false⟩], true⟩ [ty_char, ⟨.TY_STRUCT, 12, false, false⟩, ty_float, ty_ushort, ty_ptr]
+      = .ok [[ty_bool], [], [ty_double], [], []] ∧
+    funcall ⟨[ty_bool], false⟩ [ty_char, ty_int] = .error "too many arguments" ∧
+    funcall ⟨[ty_bool, ty_int], true⟩ [ty_char] = .error "too few arguments" := ⟨rfl, rfl, rfl, rfl⟩
+
+/-- **C06 (declared parameter lists).**  `func_params()`: `(void)` is a prototype without parameters; an empty list `()` gives
+    no information about the parameters (C11 6.7.6.3p14), so calls through it get the default argument promotions — chibicc
+    marks it variadic; array and function parameters are adjusted to pointers (6.7.6.3p7-8). -/
+theorem C06_param_decl :
+    fnTyOf .void = ⟨[], false⟩ ∧ fnTyOf .empty = ⟨[], true⟩ ∧
+    (∀ (sz : Nat) (u b e : Bool), fnTyOf (.list [⟨.TY_ARRAY, sz, u, b⟩, ⟨.TY_FUNC, sz, u, b⟩, ty_char] e) = ⟨[ty_ptr, ty_ptr, ty_char], e⟩) := by
+  refine ⟨rfl, rfl, ?_⟩
+  intro sz u b e
+  rfl
+
+/-- **C06 (the parameter object holds the C11 conversion of the argument) — integer types.**  For every parameter type `to` and
+    every argument type `frm` among the nine integer types, in a call through a prototype (fixed or the named part of a variadic
+    one), for every machine state whose %rax represents the argument value `v` (the result of `gen_expr(arg)`, property C01):
+    the instructions `funcall()`'s cast adds are those of `cast(frm, to)` and run; then
+    * register argument number `r` (0..5): after `push %rax` … `pop argreg64[r]` the register represents `convert to v`, the C11
+      conversion "as if by assignment" (6.5.2.2p7, 6.3.1.2, 6.3.1.3); in the callee — whatever state it is entered in, as long
+      as that register is untouched — the prologue's `store_gp(r, off, sizeof to)` makes the parameter object at `off(%rbp)` hold
+      `convert to v`, and a later use of the parameter (`lea off(%rbp), %rax` + `load`) has that value;
+    * stack argument: after `push %rax` the 8-byte slot at (%rsp) represents `convert to v`; the callee's parameter object *is*
+      the low bytes of that slot (any state in which the slot's eight bytes are at address `a` has the object at `a` holding
+      `convert to v`). -/
+theorem C06_arg_convert (frm to : ITy) (variadic : Bool) (s : X86.State) (v : Int) (h : Represents frm (s.get .rax) v) :
+    ∃ code s1, argSeq variadic (some (descr to)) (descr frm) = some code ∧ X86.run code s = some s1 ∧
+      (∀ r, r < 6 → ∃ s', X86.run (passRegSeq code r) s = some s' ∧
+          Represents to (s'.get (gpReg r)) (convert to v) ∧ s'.get .rsp = s1.get .rsp ∧
+          ∀ (c : X86.State) (off : Int), c.get (gpReg r) = s'.get (gpReg r) →
+            ∃ c' c'', X86.run (storeGpSeq r off to.size) c = some c' ∧ MemHolds to c' (c.ea off .rbp) (convert to v) ∧
+              X86.run (paramReadSeq to off) c' = some c'' ∧ Represents to (c''.get .rax) (convert to v)) ∧
+      (∃ s', X86.run (passStackSeq code) s = some s' ∧ s'.get .rsp = s1.get .rsp - 8 ∧
+          Represents to (s'.read64 (s'.get .rsp)) (convert to v) ∧
+          ∀ (c : X86.State) (a : BitVec 64), c.read64 a = s'.read64 (s'.get .rsp) → MemHolds to c a (convert to v)) := by
+  obtain ⟨s1, hrun, hrep⟩ := ChibiVerif.Props.C01.C01_cast frm to s v h
+  refine ⟨castSeq frm to, s1, argSeq_int frm to variadic, hrun, ?_, ?_⟩
+  · intro r hr
+    obtain ⟨s', h1, h2, h3, _⟩ := pass_reg (castSeq frm to) r hr s s1 hrun
+    refine ⟨s', h1, h2 ▸ hrep, h3, ?_⟩
+    intro c off hc
+    have hlow : LowHolds to (c.get (gpReg r)) (convert to v) := by
+      rw [hc, h2]; exact represents_low to _ _ hrep
+    obtain ⟨c', hs, hm, hregs⟩ := store_gp_ok to r hr off c _ hlow
+    have hea : c'.ea off .rbp = c.ea off .rbp := by simp only [X86.State.ea, X86.State.get, hregs]
+    obtain ⟨c'', hr1, hr2⟩ := param_read_ok to off c' _ (hea ▸ hm)
+    exact ⟨c', c'', hs, hm, hr1, hr2⟩
+  · obtain ⟨s', h1, h2, h3⟩ := pass_stack (castSeq frm to) s s1 hrun
+    refine ⟨s', h1, h3, h2 ▸ hrep, ?_⟩
+    intro c a hc
+    have hl : LowHolds to (c.read64 a) (convert to v) := by
+      rw [hc, h2]; exact represents_low to _ _ hrep
+    exact slot_holds to c a _ hl
+
+example : Represents .i8 (0xdeadbeef_ffffff80#64) (-128) ∧ convert .bool (-128) = 1 ∧ convert .u16 (-128) = 65408 :=
+  ⟨⟨by decide, by decide⟩, by decide, by decide⟩
+
+/-- **C06 (what a callee may rely on, and what chibicc's callee does rely on).**  Whatever compiler made the call: if the low
+    `sizeof t` bytes of the argument register are the object representation of `w` (all the psABI promises for char / short /
+    int; for `_Bool` it promises the low byte is 0 or 1), the chibicc-compiled callee's parameter object holds `w` — it never
+    looks at the bits above (`mov %dil / %di / %edi / %rdi, off(%rbp)`), and re-extends on every use. -/
+theorem C06_param_home (t : ITy) (r : Nat) (hr : r < 6) (off : Int) (c : X86.State) (w : Int)
+    (h : LowHolds t (c.get (gpReg r)) w) :
+    ∃ c' c'', X86.run (storeGpSeq r off t.size) c = some c' ∧ MemHolds t c' (c.ea off .rbp) w ∧
+      X86.run (paramReadSeq t off) c' = some c'' ∧ Represents t (c''.get .rax) w := by
+  obtain ⟨c', hs, hm, hregs⟩ := store_gp_ok t r hr off c w h
+  have hea : c'.ea off .rbp = c.ea off .rbp := by simp only [X86.State.ea, X86.State.get, hregs]
+  obtain ⟨c'', hr1, hr2⟩ := param_read_ok t off c' _ (hea ▸ hm)
+  exact ⟨c', c'', hs, hm, hr1, hr2⟩
+
+example : LowHolds .i16 (0x1234_5678_9abc_fffe#64) (-2) := ⟨by decide, by decide⟩
+
+/-- **C06 (`_Bool` arguments are normalised).**  For every integer argument type and every value, the register (all 64 bits) or
+    the stack slot (all 8 bytes) that carries an argument for a `_Bool` parameter holds exactly 0 or 1, and 1 exactly when the
+    argument compares unequal to 0 (psABI: bit 0 carries the truth value, bits 1-7 are zero; a gcc callee at -O2 uses the byte
+    as an `int` without masking). -/
+theorem C06_arg_bool_normalised (frm : ITy) (variadic : Bool) (s : X86.State) (v : Int) (h : Represents frm (s.get .rax) v) :
+    ∃ code, argSeq variadic (some ty_bool) (descr frm) = some code ∧
+      (∀ r, r < 6 → ∃ s', X86.run (passRegSeq code r) s = some s' ∧
+          (s'.get (gpReg r) = 0#64 ∨ s'.get (gpReg r) = 1#64) ∧ (s'.get (gpReg r) = 1#64 ↔ v ≠ 0)) ∧
+      (∃ s', X86.run (passStackSeq code) s = some s' ∧
+          (s'.read64 (s'.get .rsp) = 0#64 ∨ s'.read64 (s'.get .rsp) = 1#64) ∧ (s'.read64 (s'.get .rsp) = 1#64 ↔ v ≠ 0)) := by
+  obtain ⟨code, s1, hsel, _, hreg, hstk⟩ := C06_arg_convert frm .bool variadic s v h
+  have hv : convert .bool v ≠ 0 ↔ v ≠ 0 := by simp only [convert]; split <;> simp_all
+  refine ⟨code, hsel, ?_, ?_⟩
+  · intro r hr
+    obtain ⟨s', h1, h2, _⟩ := hreg r hr
+    obtain ⟨hb, hi⟩ := represents_bool _ _ h2
+    exact ⟨s', h1, hb, hi.trans hv⟩
+  · obtain ⟨s', h1, _, h2, _⟩ := hstk
+    obtain ⟨hb, hi⟩ := represents_bool _ _ h2
+    exact ⟨s', h1, hb, hi.trans hv⟩
+
+example : Represents .u8 (0xffffffff_00000080#64) 128 := ⟨by decide, by decide⟩
+
+/-- **C06 (what the upper bits of a narrow argument hold).**  For a parameter type narrower than 64 bits the low 32 bits of the
+    argument register / stack slot are the parameter value sign- or zero-extended to 32 bits (`_Bool`: zero-extended) — more
+    than the psABI requires, and what clang-compiled callees assume; gcc-compiled callees assume nothing beyond the low
+    `sizeof` bytes.  For 64-bit types the whole register is the value.  Bits 32..63 of a narrow argument are unspecified
+    (Findings/C06.lean `C06_arg_upper_bits_garbage`); no callee may read them, and chibicc's does not (`C06_param_home`). -/
+theorem C06_arg_extension (frm to : ITy) (variadic : Bool) (s : X86.State) (v : Int) (h : Represents frm (s.get .rax) v) :
+    ∃ code, argSeq variadic (some (descr to)) (descr frm) = some code ∧
+      (∀ r, r < 6 → ∃ s', X86.run (passRegSeq code r) s = some s' ∧
+          (if to.size = 8 then s'.get (gpReg r) = BitVec.ofInt 64 (convert to v)
+           else (s'.get (gpReg r)).setWidth 32 = BitVec.ofInt 32 (convert to v))) ∧
+      (∃ s', X86.run (passStackSeq code) s = some s' ∧
+          (if to.size = 8 then s'.read64 (s'.get .rsp) = BitVec.ofInt 64 (convert to v)
+           else (s'.read64 (s'.get .rsp)).setWidth 32 = BitVec.ofInt 32 (convert to v))) := by
+  obtain ⟨code, s1, hsel, _, hreg, hstk⟩ := C06_arg_convert frm to variadic s v h
+  have key : ∀ x : BitVec 64, Represents to x (convert to v) →
+      (if to.size = 8 then x = BitVec.ofInt 64 (convert to v) else x.setWidth 32 = BitVec.ofInt 32 (convert to v)) := by
+    intro x hx
+    have := (ChibiVerif.C01.represents_iff to x _).1 hx
+    cases to <;> simp_all [ITy.size]
+    -- `_Bool`: the whole register is 0 or 1
+    simp only [convert]
+    split <;> rfl
+  refine ⟨code, hsel, ?_, ?_⟩
+  · intro r hr
+    obtain ⟨s', h1, h2, _⟩ := hreg r hr
+    exact ⟨s', h1, key _ h2⟩
+  · obtain ⟨s', h1, _, h2, _⟩ := hstk
+    exact ⟨s', h1, key _ h2⟩
+
+example : Represents .i32 (0x00000000_fffffffb#64) (-5) := ⟨by decide, by decide⟩
+
+/-- **C06 (default argument promotions, integer types).**  A trailing argument of a variadic callee, and every argument of a
+    callee declared `()`, of integer type `frm`: `funcall()` adds no instruction, and the register / stack slot represents the
+    argument value *in the promoted type* (6.5.2.2p6-7, 6.3.1.1: `int` for `_Bool`, `char`, `short` and their unsigned
+    variants) — `va_arg(ap, int)` in the callee reads the low four bytes of the slot the value was spilled to (`C06_va_partial`)
+    and gets `v`. -/
+theorem C06_arg_default_promotions (frm : ITy) (s : X86.State) (v : Int) (h : Represents frm (s.get .rax) v) :
+    argSeq true none (descr frm) = some [] ∧ (fnTyOf .empty).variadic = true ∧
+      (∀ r, r < 6 → ∃ s', X86.run (passRegSeq [] r) s = some s' ∧ Represents (promote frm) (s'.get (gpReg r)) v ∧
+          LowHolds (promote frm) (s'.get (gpReg r)) v) ∧
+      (∃ s', X86.run (passStackSeq []) s = some s' ∧ Represents (promote frm) (s'.read64 (s'.get .rsp)) v ∧
+          ∀ (c : X86.State) (a : BitVec 64), c.read64 a = s'.read64 (s'.get .rsp) → MemHolds (promote frm) c a v) := by
+  have hp := represents_promote frm _ v h
+  refine ⟨argSeq_tail_int frm, rfl, ?_, ?_⟩
+  · intro r hr
+    obtain ⟨s', h1, h2, _⟩ := pass_reg [] r hr s s rfl
+    exact ⟨s', h1, h2 ▸ hp, h2 ▸ represents_low _ _ _ hp⟩
+  · obtain ⟨s', h1, h2, _⟩ := pass_stack [] s s rfl
+    refine ⟨s', h1, h2 ▸ hp, ?_⟩
+    intro c a hc
+    have hl : LowHolds (promote frm) (c.read64 a) v := by
+      rw [hc, h2]; exact represents_low _ _ _ hp
+    exact slot_holds _ c a v hl
+
+example : Represents .u16 (0x7777_7777_0000_ffff#64) 65535 ∧ promote .u16 = .i32 := ⟨⟨by decide, by decide⟩, by decide⟩
+
+end Args
 
 end ChibiVerif.Props.C06
